@@ -14,4 +14,7 @@ for prop in "$@"; do
 done
 rm -f /tmp/tryseed.$$.out
 git checkout -- . 
+# the checks above rewrote the evidence files from the patched tree: rewrite
+# them from the clean tree so that what is committed describes the real code
+for prop in "$@"; do /verif/check.sh "$prop" quick > /dev/null 2>&1; done
 exit $rc
